@@ -566,6 +566,11 @@ void cmb_dataset_histogram_print(const struct cmb_dataset *dsp,
         /* Autoscale to dataset range */
         low_lim = dsp->min;
         high_lim = dsp->max;
+        if (low_lim == high_lim) {
+            /* Constant data: a range of zero has no bin size, use one unit */
+            low_lim -= 0.5;
+            high_lim += 0.5;
+        }
     }
 
     const unsigned datarange = (unsigned)ceil(high_lim - low_lim);
